@@ -35,10 +35,13 @@ pub fn prepare_links(blocks: &mut [Block], shapes: &[u8]) -> usize {
                         };
                         if !gen::inlines_visible(kids) {
                             *deep += 1;
-                            *kids = match k % 3 {
+                            *kids = match k % 5 {
                                 0 => vec![],
                                 1 => vec![Inline::Raw(" ".into())],
-                                _ => vec![Inline::Br],
+                                2 => vec![Inline::Br],
+                                // children that collapse to a bare fragment marker
+                                3 => vec![Inline::Raw("<span id=\"e\"></span>".into())],
+                                _ => vec![Inline::Raw("<img id=\"e\" src=\"s\">".into())],
                             };
                         }
                         *n += 1;
@@ -445,7 +448,7 @@ pub fn property() -> Property {
     Property {
         id: "C08",
         level: "exploration",
-        rule: "grammar documents (paragraphs, lists, quotes, headings, dl, tables incl. nested) with 0..40 links whose text nodes carry identifying characters, targets made of digits/punctuation (not unique, some longer than the width), plus shallow-empty links (no children, whitespace, <br>) and <a> without href; width 10..=120; plain / plain_no_decorate / trivial / rich x link_footnotes(true|false) x no_link_wrapping x do_decorate. Oracle: n = links with visible content (from the AST); enabled: the output ends with exactly one block that un-wraps (pieces cut exactly at the width) to `[k]: target_k`, k = 1..n, separated from the text by a blank line; on the document-order stream (table-free documents; raw-mode rendering for documents with tables) the last character of link k is followed (closing markup and block prefixes skipped) by `[k]`, and the references in the text are exactly 1..n once each; rich: link text carries Link(target_k), references do not; disabled: no `[k]`, no list. Sub-check block_links (enumerated): a link whose whole content is one of 11 block constructs, at each position among three links, in 4 outer contexts, 3 widths: list and references as above. Non-trivial = >= 3 links with content in >= 2 containers; distinct by the whole case.",
+        rule: "grammar documents (paragraphs, lists, quotes, headings, dl, tables incl. nested) with 0..40 links whose text nodes carry identifying characters, targets made of digits/punctuation (not unique, some longer than the width), plus shallow-empty links (no children, whitespace, <br>, an empty id-bearing span, an id-bearing image without alt text) and <a> without href; width 10..=120; plain / plain_no_decorate / trivial / rich x link_footnotes(true|false) x no_link_wrapping x do_decorate. Oracle: n = links with visible content (from the AST); enabled: the output ends with exactly one block that un-wraps (pieces cut exactly at the width) to `[k]: target_k`, k = 1..n, separated from the text by a blank line; on the document-order stream (table-free documents; raw-mode rendering for documents with tables) the last character of link k is followed (closing markup and block prefixes skipped) by `[k]`, and the references in the text are exactly 1..n once each; rich: link text carries Link(target_k), references do not; disabled: no `[k]`, no list. Sub-check block_links (enumerated): a link whose whole content is one of 11 block constructs, at each position among three links, in 4 outer contexts, 3 widths: list and references as above. Non-trivial = >= 3 links with content in >= 2 containers; distinct by the whole case.",
         assumptions: vec!["bordered tables: list and numbering are checked through the raw-mode rendering of the same document plus the list of the bordered rendering (a reference can be split inside a narrow cell)", "deep-empty links are a known finding and not generated"],
         hang_is_violation: false,
         subs: vec![
